@@ -151,6 +151,9 @@ func (c *SpecCtx) eval(e *Expr) SV {
 		if pkg != nil {
 			if g, ok := pkg.Members[e.Name].(*ssa.Global); ok {
 				pt := g.Type().Underlying().(*types.Pointer)
+				if c.tr.top != nil {
+					c.tr.top.noteGlobal(g)
+				}
 				return c.loadSVLazy(Int(c.tr.eng.globalID(g)), Int(0), pt.Elem())
 			}
 		}
